@@ -686,6 +686,9 @@ class Flatten(EnvironmentFilter):
                     for target in targets:
                         new[target] = DiscreteReward(new['actions'],list(map(old[target],old['actions'])))
 
+                if 'action' in old and new['actions'] != old['actions'] and old['action'] in old['actions']:
+                    new['action'] = new['actions'][old['actions'].index(old['action'])] #the logged action is flattened as well
+
             yield new
 
 class Binary(EnvironmentFilter):
